@@ -215,8 +215,8 @@ impl UnitPropagate {
             } else {
                 // num_remaining > 1, find a new literal to watch
                 // first, find a new literal to watch
-                let candidate_unwatched: LitIdx =
-                    remaining_lits.clone().next().unwrap().label().value_usize();
+                let candidate: Literal = *remaining_lits.clone().next().unwrap();
+                let candidate_unwatched: LitIdx = candidate.label().value_usize();
                 // check if candidate_unwatched is already being watched; if it
                 // is, pick another literal to watch
                 let prev_watcher: ClauseIdx = if new_assignment.polarity() {
@@ -225,7 +225,7 @@ impl UnitPropagate {
                     self.watch_list_pos[var_idx][watcher_idx]
                 };
 
-                let new_lit: &Literal = if new_assignment.polarity() {
+                let new_lit: &Literal = if candidate.polarity() {
                     if self.watch_list_pos[candidate_unwatched].contains(&prev_watcher) {
                         remaining_lits.nth(1).unwrap()
                     } else {
